@@ -235,6 +235,7 @@ def run(ctx):
     C03.contexts(ctx, 2, 2, seen, [(cx, None) for cx in C03.CONTEXTS], full=False)
     # through the whole pipeline: PUSH_CONSTANT_STAGES for a push constant that is used, unused, or only mentioned in a helper nobody calls
     C03.end_to_end(ctx, seen)
+    C03.wrappers(ctx, seen)
     ctx.extra['violations_by_rule'] = seen
 
 
